@@ -151,10 +151,11 @@ def stage_record(ctx, cfg=None, label=""):
             for idx, expected in sorted(mism.items()):
                 rec = json.loads(lines[idx - 1])
                 ctx.failures.append(dict(source="trace", vh=cfg.get("record_vh", ctx.pid), **{"in": rec["in"], "obs": rec["obs"], "exp": expected}))
-            if len(ctx.accepted_records) < 400 and not label:
+            acc = ctx.accepted_records if not label else ctx.accepted_more.setdefault(label, [])
+            if len(acc) < 400:
                 for i, ln in enumerate(lines[:400]):
                     if (i + 1) not in mism and (i + 1) not in skips:
-                        ctx.accepted_records.append(json.loads(ln))
+                        acc.append(json.loads(ln))
             if (not ctx.trace_sampled or label) and lines and len(ctx.samples) < 4:
                 ctx.samples.append(dict(kind="recorded run (impl -> spec)", **json.loads(lines[0])))
                 ctx.trace_sampled = True
@@ -167,38 +168,47 @@ def stage_record(ctx, cfg=None, label=""):
 
 
 def stage_selftest(ctx):
+    selftest_one(ctx, ctx.cfg, ctx.accepted_records, "")
+    for k, more in enumerate(ctx.cfg.get("more", [])):
+        label = ".%s" % more.get("record_vh", k)
+        selftest_one(ctx, dict(more, selftest=more.get("selftest", ctx.cfg.get("selftest"))), ctx.accepted_more.get(label, []), label)
+
+
+def selftest_one(ctx, cfg, accepted_records, label):
     """Binding demonstration that does not depend on the code under test being right:
     records that TLC ACCEPTED in the trace stage are corrupted (one field changed, see
     Prop::corrupt in the harness) and validated again; every one of them must now be
     rejected.  If the corrupted trace were accepted, the trace specification would be
     vacuous: tool error."""
-    cfg = ctx.cfg
-    if "selftest" not in cfg or "trace" not in cfg:
+    if not cfg.get("selftest") or "trace" not in cfg:
         return
     n = cfg["selftest"][ctx.tier]
-    good = ctx.accepted_records[:n]
+    good = accepted_records[:n]
     if not good:
-        log("self-test skipped: no accepted record to corrupt")
+        log("self-test%s skipped: no accepted record to corrupt" % label)
         return
-    src = os.path.join(ctx.wd, "selftest.in.ndjson")
+    src = os.path.join(ctx.wd, "selftest%s.in.ndjson" % label)
     with open(src, "w") as f:
         for r in good:
             f.write(json.dumps(r) + "\n")
-    tf = os.path.join(ctx.wd, "selftest.ndjson")
+    tf = os.path.join(ctx.wd, "selftest%s.ndjson" % label)
     rc, out, dt = lib.run([lib.VH, "corrupt", cfg.get("record_vh", ctx.pid), src, tf], timeout=600, env=dict(ctx.env, VH_JOBS="1"))
     if rc != 0:
         raise ToolError("vh corrupt failed rc=%s\n%s" % (rc, out[-3000:]))
     save = (ctx.states, ctx.transitions)
-    nrec, mism, skips = validate_trace(ctx, tf, ctx.pid + ".self")
+    nrec, mism, skips = validate_trace(ctx, tf, ctx.pid + ".self" + label, cfg)
     ctx.states, ctx.transitions = save
     accepted = nrec - len(skips) - len(mism)
-    ctx.selftest = dict(corrupted_records=nrec, rejected=len(mism))
+    if label:
+        ctx.selftest_more[label.lstrip(".")] = dict(corrupted_records=nrec, rejected=len(mism))
+    else:
+        ctx.selftest = dict(corrupted_records=nrec, rejected=len(mism))
     if nrec == 0:
-        log("self-test skipped: nothing corruptible")
+        log("self-test%s skipped: nothing corruptible" % label)
         return
     if accepted > 0:
-        raise ToolError("self-test: %d corrupted records were ACCEPTED by the trace specification - the binding is vacuous" % accepted)
-    log("self-test: %d corrupted records, all rejected" % len(mism))
+        raise ToolError("self-test%s: %d corrupted records were ACCEPTED by the trace specification - the binding is vacuous" % (label, accepted))
+    log("self-test%s: %d corrupted records, all rejected" % (label, len(mism)))
 
 
 class Ctx:
@@ -261,6 +271,8 @@ def check(pid, tier, seed):
     ctx.failures, ctx.samples, ctx.mc_runs = [], [], []
     ctx.trace_sampled = False
     ctx.accepted_records = []
+    ctx.accepted_more = {}
+    ctx.selftest_more = {}
     ctx.selftest = None
     ctx.trace_stages = []
     ctx.extra = {}
@@ -293,7 +305,7 @@ def check(pid, tier, seed):
                traces_validated_against_impl=ctx.replayed + ctx.validated,
                samples=ctx.samples[:4] or [dict(note="no sample")],
                vectors_replayed_spec_to_impl=ctx.replayed, recorded_runs_validated_impl_to_spec=ctx.validated,
-               out_of_domain_skipped=ctx.skipped, tlc_runs=ctx.mc_runs, trace_stages=ctx.trace_stages, selftest=ctx.selftest,
+               out_of_domain_skipped=ctx.skipped, tlc_runs=ctx.mc_runs, trace_stages=ctx.trace_stages, selftest=ctx.selftest, selftest_more=ctx.selftest_more,
                known_findings_hit=known, disagreements=len(ctx.failures),
                exhaustive=bool(ctx.cfg.get("exhaustive_note")), rule=ctx.cfg.get("rule", ""))
     cov.update(ctx.extra)
